@@ -129,10 +129,12 @@ class Watchdog(object):
         self.done.set()
 
 
-def run_once(program, k, handler_kind):
+def run_once(program, k, handler_kind, fanout=None):
     """program: list of ops (see _exec); k: index of the switch point at which the signal is raised (0 = never);
     handler_kind: 'msg' | 'action' | 'serialize' | 'typed'. Returns what a recording destination saw, which calls returned, where the
-    signal landed, and how many switch points the program passed (with k=0: the enumeration bound)."""
+    signal landed, and how many switch points the program passed (with k=0: the enumeration bound).
+    fanout = {"before": bool, "fail_every": n}: two more destinations are registered around the recording one - one that raises
+    DestFault on every n-th call (before or after it) and a second recorder behind both; their tapes come back as "tape2" / "faulty"."""
     import eliot
     from eliot import _action, _message, _output, _traceback, _errors
     from eliot import add_destinations, current_action, log_message, start_action, write_traceback, Message, MessageType, Field
@@ -140,7 +142,20 @@ def run_once(program, k, handler_kind):
     if threading.current_thread() is not threading.main_thread():
         return {"skip": "not the main thread of its process"}
     tape = []
-    add_destinations(lambda m: tape.append(dict(m)))
+    tape2, faulty = [], {"calls": 0, "failed": []}
+    if fanout:
+        from vf import excs
+
+        def bad(m):
+            faulty["calls"] += 1
+            if faulty["calls"] % fanout["fail_every"] == 0 and m.get("message_type") != "eliot:destination_failure":
+                faulty["failed"].append(m.get("nid", m.get("message_type")))
+                raise excs.DestFault("fan-out destination fails on call %d" % faulty["calls"])
+        first = (lambda m: tape.append(dict(m)))
+        second = (lambda m: tape2.append(dict(m)))
+        add_destinations(*([bad, first, second] if fanout["before"] else [first, bad, second]))
+    else:
+        add_destinations(lambda m: tape.append(dict(m)))
     returned = []     # nids of logging calls that returned (main program and handler)
     reserved = []     # serialized task ids handed out (each reserves a position that this program never continues)
     errors = []
@@ -224,7 +239,7 @@ def run_once(program, k, handler_kind):
         inj.close()
     if wd.stuck:
         errors.insert(0, "a logging call never returned: the only running thread stayed at %s for %.0f s (blocked on something it holds itself)" % (wd.stuck, wd.limit))
-    return {"tape": tape, "returned": returned, "reserved": reserved, "errors": errors, "points": inj.count, "fired": inj.fired,
+    return {"tape2": tape2, "faulty": faulty, "tape": tape, "returned": returned, "reserved": reserved, "errors": errors, "points": inj.count, "fired": inj.fired,
             "handler_runs": state["handler_runs"], "handler_context": state["handler_context"]}
 
 
@@ -394,3 +409,27 @@ def judge_handover(data, nprebuf, nafter, with_globals, problems):
         problems.append("messages arrive as %s, logged as %s" % (main, want))
     if with_globals and any(x[2] != 1 for x in tape if x[1] != 1000 or True):
         problems.append("a delivered message lacks the global field set before anything was logged: %s" % (tape,))
+
+
+def judge_fanout(data, problems):
+    """C08 under same-thread re-entry: both accepting destinations are offered every message exactly once (the same multiset; the order
+    of a nested message relative to the one being delivered legitimately differs between them), every failed delivery of the faulty
+    destination is reported exactly once to each, and no call raises."""
+    for e in data["errors"]:
+        problems.append(e)
+
+    def key(m):
+        return (m["task_uuid"], tuple(m["task_level"]))
+    a, b = [key(m) for m in data["tape"]], [key(m) for m in data["tape2"]]
+    for name, t in (("first", a), ("second", b)):
+        dup = sorted(set(x for x in t if t.count(x) > 1))
+        if dup:
+            problems.append("the %s accepting destination was offered a message more than once: %s" % (name, dup[:3]))
+    if sorted(a) != sorted(b):
+        only_a = [x for x in a if x not in b]
+        only_b = [x for x in b if x not in a]
+        problems.append("the two accepting destinations were not offered the same messages: only the first %s, only the second %s" % (only_a[:3], only_b[:3]))
+    reports = [m for m in data["tape"] if m.get("message_type") == "eliot:destination_failure"]
+    if len(reports) != len(data["faulty"]["failed"]):
+        problems.append("the faulty destination failed on %d deliveries, %d eliot:destination_failure reports reached the accepting destination" % (
+            len(data["faulty"]["failed"]), len(reports)))
